@@ -30,6 +30,9 @@ func init() {
 			{Pkg: "wire", Entry: "VerifH14", What: "rows = reference rows for every split; bad field count / truncated field -> error, never a panic or a fabricated row; trailer -> EOF",
 				Quick: map[string]int{"R": 8, "SPLITS": 2, "COLS": 2}, Thorough: map[string]int{"R": 11, "SPLITS": 2, "COLS": 2},
 				Witnesses: []string{"row-decoded", "null-field", "bad-row", "trailer", "split-at-boundary", "split-inside-tuple", "empty-chunk"}},
+			{Pkg: "wire", Entry: "VerifH14", What: "splits anywhere in the stream, also inside the 19-byte header",
+				Quick: map[string]int{"R": 6, "SPLITS": 2, "COLS": 1, "HEADERSPLIT": 1}, Thorough: map[string]int{"R": 8, "SPLITS": 2, "COLS": 1, "HEADERSPLIT": 1},
+				Witnesses: []string{"split-inside-tuple", "empty-chunk", "trailer"}},
 			{Pkg: "wire", Entry: "VerifH14", What: "column types chosen by the solver among text, int2, int4, int8 (pgx's binary codecs executed from their own code): integer fields decode to the value sent, a fixed-width field of any other length (shorter or longer) is an error, never a fabricated row",
 				Quick: map[string]int{"R": 12, "SPLITS": 0, "COLS": 1, "TYPES": 1}, Thorough: map[string]int{"R": 16, "SPLITS": 1, "COLS": 2, "TYPES": 1},
 				Witnesses: []string{"integer-field", "bad-row", "null-field"}},
